@@ -1,16 +1,22 @@
 import ErrModel.Transport
-import ErrModel.Basic.Redact
+import ErrModel.Basic.RedactT
 /-
   The formatting engine (errbase/format_error.go), transliterated:
   formatRecursive → entries → formatSingleLineOutput / formatEntries, the `state.Write`
   newline machine, the safe / plain printers on top of the redact contract
-  (Basic/Redact.lean), the SafeFormatError / FormatError methods of every library type and
+  (Basic/RedactT.lean), the SafeFormatError / FormatError methods of every library type and
   the special cases of errutil/format_error_special.go.
+
+  Buffers are token lists (`Toks`: open marker, close marker, plain byte); the byte string
+  a caller sees is `unlex` of the final token list.  Plain (non-redactable) buffers hold
+  byte tokens only.
 -/
 namespace ErrModel
 
-def detailSep : Str := b!"\n  | "
-def detailPad : Str := b!"\n  |"          -- detailSep without its last byte
+def detailSep : Toks := bytesT (b!"\n  | ")
+def detailPad : Toks := bytesT (b!"\n  |")          -- detailSep without its last byte
+def nlTs : Toks := [nlT]
+def colonSpT : Toks := bytesT colonSp
 
 /-! ### strconv.Quote (for `%q` of a mark's message) -/
 
@@ -43,8 +49,8 @@ def quoteGo (s : Str) : Str := 34 :: quoteBody (s.length + 1) s ++ [34]
 /-! ### the per-layer write state (`state.Write`, `detail`, `switchOver`) -/
 
 structure LState where
-  buf : Str := []
-  headBuf : Str := []
+  buf : Toks := []
+  headBuf : Toks := []
   hasDetail : Bool := false
   wantDetail : Bool
   notEmpty : Bool := false
@@ -58,25 +64,25 @@ def LState.switchOver (s : LState) : LState :=
   else { s with headBuf := s.buf, buf := [], notEmpty := false, hasDetail := true }
 
 /-- `chunk` = bytes of this call seen since the last flush (not yet in `buf`) -/
-def writeLoop : LState → Str → Str → LState
+def writeLoop : LState → Toks → Toks → LState
   | s, chunk, [] => { s with buf := s.buf ++ chunk }
   | s, chunk, c :: r =>
-    if c = nl then
+    if c = nlT then
       let s1 := { s with buf := s.buf ++ chunk, needNewline := s.needNewline + 1, needSpace := false, multiLine := true }
       let s2 := if s1.wantDetail then s1.switchOver else s1
       writeLoop s2 [] r
     else
-      let sep := if s.wantDetail then detailSep else nlS
+      let sep := if s.wantDetail then detailSep else nlTs
       let pad := if s.wantDetail then detailPad else []
       let s1 :=
         if s.needNewline > 0 && s.notEmpty then
           { s with buf := s.buf ++ (List.replicate (s.needNewline - 1) pad).flatten ++ sep, needNewline := 0, needSpace := false }
-        else if s.needSpace then { s with buf := s.buf ++ [32], needSpace := false }
+        else if s.needSpace then { s with buf := s.buf ++ [.b 32], needSpace := false }
         else s
       writeLoop { s1 with notEmpty := true } (chunk ++ [c]) r
 
 /-- `(*state).Write` -/
-def LState.write (s : LState) (b : Str) : LState :=
+def LState.write (s : LState) (b : Toks) : LState :=
   if b = [] then s else writeLoop s [] b
 
 /-- `(*state).detail()`: only called when details are wanted -/
@@ -87,19 +93,19 @@ def LState.detail (s : LState) : LState :=
 /-! ### what a layer's formatting method does, as a list of operations -/
 
 inductive POp
-  | safe (segs : List Seg)    -- safePrinter.Print/Printf: redact assembles the segments, then Write
+  | safe (segs : List SegT)   -- safePrinter.Print/Printf: redact assembles the segments, then Write
   | plain (s : Str)           -- printer.Print / io.WriteString: bytes written as they are
   | detail                    -- p.Detail() returned true
   deriving Repr, Inhabited
 
 def runOp (s : LState) : POp → LState
-  | .safe segs => s.write (assemble segs)
-  | .plain b => s.write b
+  | .safe segs => s.write (assembleT segs)
+  | .plain b => s.write (bytesT b)
   | .detail => s.detail
 
 structure Entry where
-  head : Str
-  details : Str
+  head : Toks
+  details : Toks
   redactable : Bool
   elideShort : Bool
   stack : Option Stack
@@ -110,15 +116,15 @@ structure Entry where
 
 /-- `collectEntry` -/
 def collect (s : LState) (bufIsRedactable redOut : Bool) (withDepth : Bool) (depth : Nat) (tstr : Str) : Entry :=
-  let hd : Str × Str :=
+  let hd : Toks × Toks :=
     if s.wantDetail then (if s.hasDetail then (s.headBuf, s.buf) else (s.buf, []))
     else
       let h := s.headBuf
-      let h1 := if h ≠ [] && h.getLast? ≠ some nl && s.buf ≠ [] && s.buf.head? ≠ some nl then h ++ [nl] else h
+      let h1 := if h ≠ [] && h.getLast? ≠ some nlT && s.buf ≠ [] && s.buf.head? ≠ some nlT then h ++ [nlT] else h
       (h1 ++ s.buf, [])
   let (h, d, r) :=
     if bufIsRedactable then
-      (if redOut then (hd.1, hd.2, true) else (stripMarkers hd.1, stripMarkers hd.2, false))
+      (if redOut then (hd.1, hd.2, true) else (bytesT (stripT hd.1), bytesT (stripT hd.2), false))
     else (hd.1, hd.2, false)
   ⟨h, d, r, false, none, false, if withDepth then depth else 0, tstr⟩
 
@@ -137,7 +143,7 @@ def elideShared (prev new : Stack) : Stack × Bool :=
 
 /-! ### the scripts of the library types -/
 
-def lit' (s : String) : Seg := .lit (lit s)
+def lit' (s : String) : SegT := .lit (lit s)
 
 /-- the Any type URL printed for an opaque payload -/
 def payUrl (d : Det) (hid : List Enc) : Option Str :=
@@ -206,17 +212,17 @@ def wrapScript (k : WrapKind) (detail : Bool) : List POp × Bool × Bool :=
   | _ => ([], false, false)      -- not a Formatter: handled by formatSimple / special cases
 
 /-- barrier: Print(smsg); Detail → "-- cause hidden behind barrier\n%+v" -/
-def barrierScript (m : BarrierMsg) (hidV : RStr) (detail : Bool) : List POp :=
+def barrierScript (m : BarrierMsg) (hidV : Toks) (detail : Bool) : List POp :=
   [.safe [.pre m.smsg]] ++
-    (if detail then [.detail, .safe [.lit (b!"-- cause hidden behind barrier" ++ [nl]), .pre hidV]] else [])
+    (if detail then [.detail, .safe [.lit (b!"-- cause hidden behind barrier" ++ [nl]), .preT hidV]] else [])
 
-def secondScript (hidV : RStr) (detail : Bool) : List POp :=
-  if detail then [.detail, .safe [.lit (b!"secondary error attachment" ++ [nl]), .pre hidV]] else []
+def secondScript (hidV : Toks) (detail : Bool) : List POp :=
+  if detail then [.detail, .safe [.lit (b!"secondary error attachment" ++ [nl]), .preT hidV]] else []
 
 /-- joinError: the branches' one-line renderings separated by Print("\n") -/
-def joinScript (branches : List RStr) : List POp :=
-  branches.zipIdx.flatMap (fun (x : RStr × Nat) =>
-    (if x.2 > 0 then [POp.safe [.arg nlS]] else []) ++ [POp.safe [.pre x.1]])
+def joinScript (branches : List Toks) : List POp :=
+  branches.zipIdx.flatMap (fun (x : Toks × Nat) =>
+    (if x.2 > 0 then [POp.safe [.arg nlS]] else []) ++ [POp.safe [.preT x.1]])
 
 def leafScript (k : LeafKind) (detail : Bool) : Option (List POp) :=
   match k with
@@ -261,46 +267,51 @@ def frameWrites (f : Frame) : List Str :=
 
 /-! ### rendering the collected entries -/
 
-def escIfNeeded (red : Bool) (en : Entry) (s : Str) : Str :=
-  if !red || en.redactable then s else escapeBytes s
+/-- a non-redactable buffer (byte tokens only) entering a redactable rendering goes through
+    `redact.EscapeBytes` -/
+def escIfNeeded (red : Bool) (en : Entry) (s : Toks) : Toks :=
+  if !red || en.redactable then s else escapeBytesT (stripT s)
 
 /-- formatSingleLineOutput (entries are stored innermost first) -/
-def singleLine (red : Bool) (ents : List Entry) : Str :=
+def singleLine (red : Bool) (ents : List Entry) : Toks :=
   ents.reverse.foldl (fun acc en =>
     if en.elideShort then acc
     else
-      let acc1 := if acc ≠ [] && en.head ≠ [] then acc ++ colonSp else acc
+      let acc1 := if acc ≠ [] && en.head ≠ [] then acc ++ colonSpT else acc
       if en.head = [] then acc1 else acc1 ++ escIfNeeded red en en.head) []
 
 /-- `%+v` of a stack with the newlines replaced by the detail separator -/
-def stackLines (st : Stack) : Str :=
-  st.flatMap (fun f => detailSep ++ (f.txt.flatMap (fun c => if c = nl then detailSep else [c])))
+def stackLines (st : Stack) : Toks :=
+  st.flatMap (fun f => detailSep ++ (f.txt.flatMap (fun c => if c = nl then detailSep else [Tok.b c])))
 
 /-- printEntry -/
-def printEntry (red : Bool) (en : Entry) : Str :=
-  (if en.head ≠ [] then (if en.head.head? ≠ some nl then [32] else []) ++ escIfNeeded red en en.head else []) ++
+def printEntry (red : Bool) (en : Entry) : Toks :=
+  (if en.head ≠ [] then (if en.head.head? ≠ some nlT then [Tok.b 32] else []) ++ escIfNeeded red en en.head else []) ++
   (if en.details ≠ [] then
-    (if en.head = [] && en.details.head? ≠ some nl then [32] else []) ++ escIfNeeded red en en.details else []) ++
+    (if en.head = [] && en.details.head? ≠ some nlT then [Tok.b 32] else []) ++ escIfNeeded red en en.details else []) ++
   (match en.stack with
-   | some st => nl :: b!"  -- stack trace:" ++ stackLines st ++
-      (if en.elidedStack then detailSep ++ b!"[...repeated from below...]" else [])
+   | some st => bytesT (nl :: b!"  -- stack trace:") ++ stackLines st ++
+      (if en.elidedStack then detailSep ++ bytesT (b!"[...repeated from below...]") else [])
    | none => [])
 
 def indentOf (depth : Nat) : Str :=
-  (List.range (depth - 1)).flatMap (fun m => if m + 2 = depth then lit "└─ " else [32, 32])
+  (List.range (depth - 1)).flatMap (fun m => if m + 2 = depth then b!"└─ " else [32, 32])
+
+/-- the `Error types:` line -/
+def typesLineOf (l : List Str) : Str :=
+  nl :: b!"Error types:" ++ (l.zipIdx.flatMap (fun (x : Str × Nat) => b!" (" ++ natStr (x.2 + 1) ++ b!") " ++ x.1))
 
 /-- formatEntries -/
-def fullOutput (red : Bool) (ents : List Entry) : Str :=
+def fullOutput (red : Bool) (ents : List Entry) : Toks :=
   match ents.reverse with
   | [] => []
   | top :: rest =>
-    singleLine red ents ++ nl :: b!"(1)" ++ printEntry red top ++
+    singleLine red ents ++ bytesT (nl :: b!"(1)") ++ printEntry red top ++
     (rest.zipIdx.flatMap (fun (x : Entry × Nat) =>
-      [nl] ++ indentOf x.1.depth ++ b!"Wraps: (" ++ natStr (x.2 + 2) ++ b!")" ++ printEntry red x.1)) ++
-    nl :: b!"Error types:" ++
-    ((top :: rest).zipIdx.flatMap (fun (x : Entry × Nat) => b!" (" ++ natStr (x.2 + 1) ++ b!") " ++ x.1.tstr))
+      bytesT ([nl] ++ indentOf x.1.depth ++ b!"Wraps: (" ++ natStr (x.2 + 2) ++ b!")") ++ printEntry red x.1)) ++
+    bytesT (typesLineOf ((top :: rest).map (·.tstr)))
 
-def finish (red detail : Bool) (ents : List Entry) : Str :=
+def finish (red detail : Bool) (ents : List Entry) : Toks :=
   if detail then fullOutput red ents else singleLine red ents
 
 /-! ### formatRecursive -/
@@ -356,22 +367,22 @@ def errText : Err → Str
     match k with
     | .withPrefix p =>
       if p = [] then errText c
-      else pfx (stripMarkers p) (if libFormats c then singleLine false (ents false false c true false 0 []).1 else errText c)
+      else pfx (stripMarkers p) (if libFormats c then stripT (singleLine false (ents false false c true false 0 []).1) else errText c)
     | .opaqueWrapper p _ mt _ =>
       if mt = mtFull then p else if p = [] then errText c
-      else pfx p (if libFormats c then singleLine false (ents false false c true false 0 []).1 else errText c)
+      else pfx p (if libFormats c then stripT (singleLine false (ents false false c true false 0 []).1) else errText c)
     | _ => wrapText k (errText c)
   | .second _ c _ => errText c
   | .multi _ k cs =>
     match k with
     | .join =>   -- redact.Sprint(e).StripMarkers()
-      stripMarkers (collect (runOps false (joinScript (rendVL cs))) true true false 0 []).head
+      stripT (collect (runOps false (joinScript (rendVL cs))) true true false 0 []).head
     | _ => multiText k (errTextL cs)
 def errTextL : List Err → List Str
   | [] => []
   | e :: r => errText e :: errTextL r
 /-- the redactable `%v` renderings of the branches of a Join (each a fresh formatting run) -/
-def rendVL : List Err → List RStr
+def rendVL : List Err → List Toks
   | [] => []
   | e :: r => singleLine true (ents true false e true false 0 []).1 :: rendVL r
 /-- formatRecursive: the entries of the sub-tree (innermost first) and the new lastStack -/
@@ -448,13 +459,16 @@ def entsL (red detail : Bool) : List Err → (depth : Nat) → Stack → List En
     (a.1 ++ b.1, b.2)
 end
 
-/-- FormatError / FormatRedactableError with verb v / s / +v on a whole error -/
-def render (red detail : Bool) (e : Err) : Str := finish red detail (ents red detail e true false 0 []).1
+/-- FormatError / FormatRedactableError with verb v / s / +v on a whole error, as tokens -/
+def renderT (red detail : Bool) (e : Err) : Toks := finish red detail (ents red detail e true false 0 []).1
+
+/-- the bytes the caller sees -/
+def render (red detail : Bool) (e : Err) : Str := unlex (renderT red detail e)
 
 /-- `redact.Sprintf("masked error: %+v", e).Redact().StripMarkers()`: what a barrier appends to
     its safe details -/
 def vfE (e : Err) : Str :=
-  stripMarkers (redactS (assemble [.lit (b!"masked error: "), .pre (render true true e)]))
+  stripT (redactT (assembleT [.lit (b!"masked error: "), .preT (renderT true true e)]))
 
 /-- the `%!verb(type)` notation of an unsupported verb -/
 def badVerb (verb : UInt8) (e : Err) : Str := b!"%!" ++ [verb] ++ b!"(" ++ e.ty.tstr ++ b!")"
